@@ -533,6 +533,15 @@ def run_pack(rng, name, shape, vals, width, dtype_form):
         return coq, f'packbits(unpackbits(a), {name}) raises {err}'
     if pk.dtype != np.dtype(name) or tuple(pk.shape) != tuple(shape) or pk.tolist() != a.tolist():
         return coq, f'packbits(unpackbits(a), {name}) = {pk.tolist()} (dtype {pk.dtype}, shape {pk.shape}) differs from a = {a.tolist()}'
+    # "for every integer dtype": the same values in the dtype with the OTHER byte order (big-endian on this machine) -- the two helpers
+    # must still invert each other (oracle only; the Coq model is about values, not byte layouts)
+    if a.itemsize > 1 and n >= 1 and lay == 'C' and not any(d == 0 for d in shape):
+        ab = a.astype(a.dtype.newbyteorder('S'))
+        ubb, e1 = call(lg.unpackbits, ab)
+        pkb, e2 = call(lg.packbits, ubb, ab.dtype) if e1 is None else (None, e1)
+        if e2 is not None or pkb.tolist() != ab.tolist():
+            return coq, (f'packbits(unpackbits(a), a.dtype) for the byte-swapped dtype {ab.dtype.str} gives '
+                         f'{e2 or pkb.tolist()}, a = {ab.tolist()}')
     # truncation / padding: width != bits
     if width != bits:
         if width < bits:
